@@ -430,6 +430,18 @@ func (e *Engine) havocLocation(st *State, env *SpecEnv, m Clause) (err error) {
 		}
 		return nil
 	}
+	if strings.HasPrefix(txt, "objects(") {
+		name := strings.TrimSpace(txt[8 : len(txt)-1])
+		if env.pkg != nil {
+			if tn, ok := env.pkg.Scope().Lookup(name).(*types.TypeName); ok {
+				for _, l := range leavesOfSafe(tn.Type()) {
+					st.havocKey(heapKey(tn.Type(), l.Path))
+				}
+				return nil
+			}
+		}
+		return fmt.Errorf("objects(%s): no such type", name)
+	}
 	if strings.HasPrefix(txt, "fields(") {
 		// the fields of the object itself (not what they reach)
 		inner, perr := parseSpecExpr(txt[7 : len(txt)-1])
@@ -488,8 +500,8 @@ func (e *Engine) havocLocation(st *State, env *SpecEnv, m Clause) (err error) {
 		st.setHeap(key, Store(h, idx, st.ctx.freshConst("hv!ghost", SInt)))
 		return nil
 	}
-	if strings.HasPrefix(txt, "map(") {
-		inner, perr := parseSpecExpr(txt[4 : len(txt)-1])
+	if strings.HasPrefix(txt, "mapof(") {
+		inner, perr := parseSpecExpr(txt[6 : len(txt)-1])
 		if perr != nil {
 			return perr
 		}
@@ -1291,7 +1303,21 @@ func (e *Engine) doSelect(st *State, in *ssa.Select, k func(*State)) {
 			ss := in.States[idx]
 			ch := s.get(ss.Chan)
 			subj := subjectOf(ss.Chan)
-			if ss.Dir == types.SendOnly {
+			if s.isLockChan(ss.Chan) {
+				// a one-slot channel used as a lock: a send that goes through acquires it
+				// (so it was free), a receive releases it
+				h := s.heapTerm("CH#held", SBool, false)
+				if ss.Dir == types.SendOnly {
+					s.assume(Not(Select(h, ch.L[0])))
+					s.setHeap("CH#held", Store(h, ch.L[0], TTrue))
+					s.event("acquire:"+subj, in.Pos(), ch.L[0])
+				} else {
+					s.obligeNamed(s.ctx.oblName(in, "select")+fmt.Sprintf("/release%d", idx), "unlock", s.posOf(in), Select(h, ch.L[0]), "release of lock channel "+subj+" not held")
+					s.setHeap("CH#held", Store(h, ch.L[0], TFalse))
+					s.event("release:"+subj, in.Pos(), ch.L[0])
+				}
+				s.touchLock("chan:"+subj, nil, ch.L[0])
+			} else if ss.Dir == types.SendOnly {
 				s.obligeNamed(s.ctx.oblName(in, "select")+fmt.Sprintf("/send%d", idx), "send", s.posOf(in), Not(s.chanClosed(ch.L[0])), "send on closed channel "+subj)
 				x := s.get(ss.Send)
 				a := append([]Term{ch.L[0]}, x.L...)
@@ -1379,13 +1405,16 @@ func (st *State) frameLocs() []frameLoc {
 				v := env.eval(ex)
 				sl := v.T.Underlying().(*types.Slice)
 				st.ctx.frame = append(st.ctx.frame, frameLoc{kind: "elem", root: typeKey(sl.Elem()), ref: v.L[0]})
-			case strings.HasPrefix(txt, "map("):
-				ex, err := parseSpecExpr(txt[4 : len(txt)-1])
+			case strings.HasPrefix(txt, "mapof("):
+				ex, err := parseSpecExpr(txt[6 : len(txt)-1])
 				if err != nil {
 					specFail("%v", err)
 				}
 				v := env.eval(ex)
 				st.ctx.frame = append(st.ctx.frame, frameLoc{kind: "map", root: typeKey(v.T.Underlying()), ref: v.L[0]})
+			case strings.HasPrefix(txt, "objects("):
+				// any object of the named struct type of this package
+				st.ctx.frame = append(st.ctx.frame, frameLoc{kind: "type", root: strings.TrimSpace(txt[8 : len(txt)-1])})
 			case strings.HasPrefix(txt, "g_"):
 				k := strings.Index(txt, "(")
 				ex, err := parseSpecExpr(txt[k+1 : len(txt)-1])
@@ -1457,6 +1486,10 @@ func (st *State) frameCheck(in ssa.Instruction, p *PtrInfo) {
 			goal = Or(goal, Eq(p.Ref, l.ref))
 		case p.Kind == pkElem && l.kind == "elem" && l.root == typeKey(p.Root):
 			goal = Or(goal, Eq(p.Ref, l.ref))
+		case p.Kind == pkHeap && l.kind == "type":
+			if _, tn := namedOrigin(p.Root); tn == l.root {
+				goal = TTrue
+			}
 		}
 	}
 	st.frameBind(in)
